@@ -141,6 +141,25 @@ def structural(res, what, sig, fit, rfi, one, check_model=True):
             res.violation(sig + ':buffer-history', '%s: %s on a buffer that was changed in place between calls (or whose earlier result the caller changed) does not give the values of a fresh array: %s / %s / %s vs %s' % (
                 what, fn_name, y2.tolist()[:2], y3.tolist()[:2], y4.tolist()[:2], y1.tolist()[:2]), one)
             return False
+    # an array whose first element is exactly zero (a table built as [0, ...span of the beads...], np.linspace(0, xmax, n)): every element
+    # still gets the value it gets on its own
+    for z0 in (0.0, -0.0, 0):
+        grid0 = np.array([z0, 0.5, 2.5, 7.0, 123.4, 1e4], dtype=float)
+        for fn_name, fn in (('std_crv', std_crv),) + ((('beads_model', beads_model),) if check_model else ()):
+            if fn_name == 'beads_model':
+                grid_use = grid0[1:]
+                grid_use = np.concatenate([[1e-300], grid_use])
+            else:
+                grid_use = grid0
+            try:
+                whole = np.asarray(fn(grid_use))
+                each = np.array([float(np.asarray(fn(np.array([v_])))[0]) for v_ in grid_use.tolist()])
+            except Exception as e:
+                res.violation(sig + ':zero-first-raises', '%s: %s on an array starting with %r raised %s: %s' % (what, fn_name, z0, type(e).__name__, e), one)
+                return False
+            if whole.dtype.kind != 'f' or not np.array_equal(np.asarray(whole, dtype=float), each):
+                res.violation(sig + ':zero-first', '%s: %s(%s) = %s (dtype %s), element by element it gives %s' % (what, fn_name, grid_use.tolist(), whole.tolist(), whole.dtype, each.tolist()), one)
+                return False
     neg = np.asarray(std_crv(-xs), dtype=float)
     if not np.all(np.isfinite(pos)) or not np.array_equal(neg, -pos):
         res.violation(sig + ':not-odd', '%s: std_crv(-x) != -std_crv(x): %s vs %s' % (what, neg.tolist()[:3], pos.tolist()[:3]), one)
